@@ -426,7 +426,78 @@ WHOLERUN_SHAPES = [_shape_boundary, _shape_extra_sources, _shape_tiny, _shape_po
                    _shape_default, _shape_doy366]
 
 
-def run_configs(ctx, n, extra_sources_every=0, crash_is_broken=False, shapes=False, **overrides):
+# ------------------------------------------------------------------------------------------------
+# "wide" configurations (wholerun.make_config(wide=...)): leaves of LDAR-Sim's parameter space the base
+# generator never varies and boundary values of those it does.  Tags relevant for C02-C04:
+WIDE_TAGS = ["repairs", "durations", "coverage", "crews", "workday", "delays", "freq", "months", "years",
+             "weather", "sims"]
+COMPONENT_METHODS = ("OGI", "OGI_FU", "OGI_FU2")
+
+
+def _focus(cfg, what, path, value):
+    """a boundary value set on purpose (on top of the random catalogue picks), recorded like them"""
+    d = cfg
+    for k in path[:-1]:
+        d = d[k]
+    d[path[-1]] = value
+    cfg.setdefault("wide_applied", []).append({"tag": "focus:" + what, "path": list(path), "value": value})
+
+
+def _focus_repairs(k):
+    def f(cfg):
+        # C04 "exactly after the configured delays": repair delay 0 (earliest end = tag day + 1, max 1 delta)
+        # or the two-valued list [0, 30], together with a reporting delay of 30 days on every tagging method
+        _focus(cfg, "repairs", ("repair_delay",), [[0], [0, 30]][k % 2])
+        for m in COMPONENT_METHODS:
+            _focus(cfg, "delays", ("methods", m, "reporting_delay"), [30, 30, 0][(k // 2) % 3] if m != "OGI_FU2" else 30)
+    return f
+
+
+def _focus_durations(k):
+    def f(cfg):
+        # C03 bounded duration at its boundary: 1- and 2-day leaks; every pre-period leak of a 1-day source starts
+        # exactly `duration` days before the period (the F3 domain); several simulations, each with its own baseline
+        _focus(cfg, "durations", ("rep", "duration"), [1, 2][k % 2])
+        _focus(cfg, "durations", ("nonrep", "duration"), [1, 2, 1][k % 3])
+        _focus(cfg, "sims", ("n_sims",), [3, 2][k % 2])
+        cfg["pre_sim_emissions"] = True
+        # short leaks: a higher production rate, so that the boundary (a leak that began exactly `duration` days
+        # before the period) really occurs
+        cfg["rep"]["epr"] = 0.125
+        cfg["rep"]["multi"] = True
+        cfg["nonrep"]["epr"] = 0.0625
+        cfg["nonrep"]["multi"] = True
+    return f
+
+
+def _focus_coverage(k):
+    def f(cfg):
+        # C02: with coverage 0 on every tagging-capable method nothing can be found: mitigated 0 everywhere
+        leaf = ["spatial", "temporal"][k % 2]
+        for m in COMPONENT_METHODS:
+            _focus(cfg, "coverage", ("methods", m, leaf), 0.0)
+    return f
+
+
+def _focus_sims(k):
+    def f(cfg):
+        _focus(cfg, "sims", ("n_sims",), [2, 3][k % 2])
+    return f
+
+
+WIDE_SHAPES = [
+    lambda k: {"wide": True, "n_sites": 5},                                              # all tags
+    lambda k: {"wide": ["repairs", "delays"], "n_sites": 6, "_focus": _focus_repairs(k)},
+    lambda k: {"wide": ["durations", "sims"], "n_sites": 6, "ndays": [120, 200][k % 2], "_focus": _focus_durations(k)},
+    lambda k: {"wide": ["coverage"], "n_sites": 5, "_focus": _focus_coverage(k)},
+    lambda k: {"wide": ["crews", "workday", "freq"], "n_sites": 6},
+    lambda k: {"wide": ["months", "years", "weather"], "n_sites": 6},
+    lambda k: {"wide": WIDE_TAGS, "n_sites": 5, "_focus": _focus_sims(k)},
+    lambda k: {"wide": ["coverage", "delays", "repairs", "durations"], "n_sites": 5},
+]
+
+
+def run_configs(ctx, n, extra_sources_every=0, crash_is_broken=False, shapes=False, n_wide=0, **overrides):
     """n generated configurations run by the real simulator (in parallel); returns list of Result.
     `extra_sources_every=k`: every k-th configuration is granular with the opt-in extra sources
     (non-persistent non-repairable source, second repairable source on one component)"""
@@ -434,6 +505,20 @@ def run_configs(ctx, n, extra_sources_every=0, crash_is_broken=False, shapes=Fal
     from harness import wholerun as W
 
     cfgs, modes = [], []
+    for j in range(n_wide):
+        ov = dict(overrides)
+        ov.update(WIDE_SHAPES[j % len(WIDE_SHAPES)](j // len(WIDE_SHAPES)))
+        focus = ov.pop("_focus", None)
+        cfg = W.make_config(ctx.rng, **ov)
+        if focus is not None:
+            focus(cfg)
+        cfgs.append(cfg)
+        modes.append({"debug": True, "processes": 1})
+        ctx.count("wholerun_wide_runs")
+        ctx.count("wholerun_wide_shape:%d" % (j % len(WIDE_SHAPES)))
+        for a in cfg.get("wide_applied", []):
+            ctx.count("wholerun_wide_leaf:%s=%s" % ("/".join(str(x) for x in a["path"] if x not in ("m", "c", "methods")),
+                                                    json_short(a["value"])))
     for i in range(n):
         ov = dict(overrides)
         mode = {"debug": True, "processes": 1}
@@ -463,7 +548,7 @@ def run_configs(ctx, n, extra_sources_every=0, crash_is_broken=False, shapes=Fal
         modes.append(mode)
         if shapes:
             ctx.count("wholerun_shape:%d" % (i % len(WHOLERUN_SHAPES)))
-    with cf.ThreadPoolExecutor(max_workers=min(8, max(1, n))) as ex:
+    with cf.ThreadPoolExecutor(max_workers=min(10, max(1, len(cfgs)))) as ex:
         results = list(ex.map(lambda cm: W.run_config(cm[0], debug=cm[1]["debug"], processes=cm[1]["processes"],
                                                       trace=True), zip(cfgs, modes)))
     good = []
@@ -493,6 +578,27 @@ def run_configs(ctx, n, extra_sources_every=0, crash_is_broken=False, shapes=Fal
             return good
         raise RuntimeError("every whole run failed (infrastructure): " + last[-2000:])
     return good
+
+
+def tagging_methods(cfg, prog):
+    """from the configuration only: the methods of program `prog` that can tag at all - component-scale
+    methods whose spatial and temporal coverage are both > 0 (coverage 0 means no emission is ever visible
+    to the method, `Emission.check_spatial_cov` / `check_temporal_cov` draw Bernoulli(coverage))"""
+    names = next((p["methods"] for p in cfg["programs"] if p["name"] == prog), [])
+    return [m for m in names if cfg["methods"][m]["measurement_scale"] == "component"
+            and float(cfg["methods"][m]["spatial"]) > 0 and float(cfg["methods"][m]["temporal"]) > 0]
+
+
+def configured_reporting_delay(cfg, method, logged=None):
+    m = cfg["methods"].get(method)
+    return int(m["reporting_delay"]) if m is not None else logged
+
+
+def json_short(v):
+    import json
+
+    t = json.dumps(v, sort_keys=True)
+    return t if len(t) <= 40 else t[:37] + "..."
 
 
 def record_key(row):
@@ -588,8 +694,13 @@ def records(res):
                 yield d
 
 
-def model_line_for_record(rec, delay, n, method_ids):
-    evs = [(e[1], method_ids[e[5]], e[6]) if e[0] == "tag" else (e[1], method_ids[e[5]], 0, 1) for e in rec["tags"]]
+def model_line_for_record(rec, delay, n, method_ids, methods=None):
+    """`methods` = cfg["methods"]: the reporting delay of a tag request is read from the configuration of the
+    method that issued it, not from the TaggingInfo the simulator built"""
+    def trd(e):
+        m = (methods or {}).get(e[5])
+        return int(m["reporting_delay"]) if m is not None and "reporting_delay" in m else e[6]
+    evs = [(e[1], method_ids[e[5]], trd(e)) if e[0] == "tag" else (e[1], method_ids[e[5]], 0, 1) for e in rec["tags"]]
     return "case %d %d %d %d %d %d %d %d %s" % (
         rec["start"], rec["nrd"], delay, int(rec["repairable"]), int(rec["intermittent"]), rec["adur"], rec["idur"],
         n, "[" + ",".join("[" + ",".join(str(x) for x in e) + "]" for e in evs) + "]")
@@ -619,7 +730,7 @@ def conform_records(ctx, res, recs):
     lines, owners = [], []
     for rec in recs:
         for dl in (delays if rec["repairable"] else delays[:1]):
-            lines.append(model_line_for_record(rec, dl, res.ndays, method_ids))
+            lines.append(model_line_for_record(rec, dl, res.ndays, method_ids, res.cfg["methods"]))
             owners.append(rec)
     out = LeanDriver("drv_emission").run(lines)
     ok = {}
@@ -664,10 +775,11 @@ def base_fields(rec):
             "endDateStr": b["Date Repaired or Expired"]}
 
 
-def wholerun_stage(ctx, n_quick, n_thorough, per_record, per_result=None, **overrides):
+def wholerun_stage(ctx, n_quick, n_thorough, per_record, per_result=None, wide_quick=4, wide_thorough=12, **overrides):
     """runs generated configurations through the real simulator; trace conformance of every record
     against the Lean model; `per_record(ctx, res, rec)` evaluates the property's oracle"""
-    results = run_configs(ctx, ctx.pick(n_quick, n_thorough), shapes=True, crash_is_broken=True, **overrides)
+    results = run_configs(ctx, ctx.pick(n_quick, n_thorough), shapes=True, crash_is_broken=True,
+                          n_wide=ctx.pick(wide_quick, wide_thorough), **overrides)
     try:
         for res in results:
             recs = list(records(res))
@@ -691,9 +803,11 @@ def wholerun_stage(ctx, n_quick, n_thorough, per_record, per_result=None, **over
             ctx.count("wholerun_configs")
             ctx.sample({"whole_run": {k: res.cfg[k] for k in ("granular", "start", "end", "n_sites", "n_sims", "repair_delay")},
                         "programs": [p["name"] for p in res.cfg["programs"]], "processes": res.cfg.get("processes"),
+                        "wide_applied": res.cfg.get("wide_applied"),
                         "sources": [(x["source"], x["component"], x["repairable"], x["persistent"])
                                     for x in res.cfg.get("sources", [])],
                         "records": len(recs)}, cap=8)
+            ctx.count("wholerun_simulations", res.n_sims)
     finally:
         for res in results:
             res.cleanup()
